@@ -210,6 +210,7 @@ bool File::rename(const String& from, const String& to, bool failIfExists)
     {
       int err = errno;
       ::close(fd);
+      ::unlink(to); // do not leave the placeholder behind
       errno = err;
       return false;
     }
